@@ -15,7 +15,7 @@ func c14Cfg() *DeclCfg {
 		{K: KString, W: WMap, MapKey: KString}, {K: KInt, W: WMap, MapKey: KString}, {K: KCelsius}, {K: KString, W: WFunc1}, {W: WFunc0}}
 	return &DeclCfg{
 		MaxDepth: 2, MaxFan: 2, PCmds: 60, Types: types, OptsMin: 1, OptsMax: 4, SubGroupsMax: 2, NestMax: 2,
-		PInline: 25, PCmdTwin: 20, PDupField: 20, PNoIni: 10, PNamespace: 30, PShortOnly: 15, PLongOnly: 15, PDefault: 15, PBase: 15, PChoices: 5,
+		PInline: 25, PNameless: 8, PCmdTwin: 20, PDupField: 20, PNoIni: 10, PNamespace: 30, PShortOnly: 15, PLongOnly: 15, PDefault: 15, PBase: 15, PChoices: 5,
 		PExec: 30, PByTag: 50, PSubOptional: 100, PIniName: 20,
 		ParserOpts: []flags.Options{0, flags.HelpFlag},
 	}
